@@ -21,6 +21,7 @@ CLAUSE = CLAUSE + (" station_lookup selects a table row by comparing the whole c
                    "column cni4 with the 12 bit code); removing a handler record does not end the list walk whose union of masks "
                    "gates the announcing decoders.")
 CLAUSE = CLAUSE + (" parse_8_30 decodes local time only under designation 0..1 and the programme id only under 2..3.")
+CLAUSE = CLAUSE + (" parse_8_30 is dispatched on the full channel number (pmag & 15) == 0.")
 NOT_DECIDED = ("that the event carries exactly the transmitted values (value fidelity), exactly-one event under interleaved "
                "carriers, the XDS carrier's missing `id != nuid` test (XDS is checksum protected and not among the four "
                "carriers the statement quantifies over; recorded as a note).")
@@ -295,6 +296,7 @@ def run(ctx, run):
     _call_letters_rearm(ctx, run)
     _exact_lookup(ctx, run)
     _designation_ranges(ctx, run)
+    _bsd_dispatch(ctx, run)
     # the event mask that gates the announcing decoders is the union over *all* records (rule shared with C11)
     from . import C11
     for nm in ("vbi_event_handler_add", "vbi_event_handler_register"):
@@ -585,3 +587,53 @@ def _designation_ranges(ctx, run):
                               "transmitted" % (what, list(iv) if iv else "(unbounded)", lo, hi), ex.loc(f, i),
                               witness={"designation": list(iv) if iv else None})
     run.floor("8/30 payload decoders called from parse_8_30", n, 2)
+
+
+def _bsd_dispatch(ctx, run):
+    """RF-BITS: packets 30 and 31 of any magazine are independent data lines; only channel 0 -
+    magazine 8 *and* packet 30 - is the broadcast service data packet 8/30 that carries network
+    id, local time and programme id.  The channel number is pmag & 15 (magazine bits plus the low
+    bit of the packet number): the switch that leads to parse_8_30() must include that packet bit
+    (0x8), or packet 8/31 - someone's data channel - is announced as local time and PIL."""
+    P = ctx.prog
+    f = P.need("vbi_decode_teletext", "src/packet.c")
+    run.touch(f)
+    calls = [(b, i) for b, i in flow.all_events(f) if f.exprs[i]["k"] == "call" and f.exprs[i].get("callee") == "parse_8_30"]
+    if not calls:
+        raise AnalysisBroken("vbi_decode_teletext no longer calls parse_8_30")
+    for cb, ci in calls:
+        # innermost switch whose case edge dominates the call
+        best = None
+        for src, lab, cond in flow.dominating_edges(f, cb):
+            t = f.blocks[src].term
+            if t and t["kind"] == "SwitchStmt" and isinstance(lab, tuple):
+                best = (src, lab, cond)
+        key = "RF-BITS:vbi_decode_teletext:8-30-dispatch"
+        if best is None:
+            run.violation("RF-BITS", key, "parse_8_30() is not called from a case of the channel switch", ex.loc(f, ci))
+            continue
+        src, lab, cond = best
+        c = f.exprs[ex.skip(f, cond)]
+        while c["k"] == "cast":
+            c = f.exprs[ex.skip(f, c["c"][0])]
+        mask = None
+        var = None
+        if c["k"] == "bin" and c["op"] == "&":
+            for x in c["c"]:
+                v = ex.const(f, x)
+                if v is not None:
+                    mask = v
+                else:
+                    xe = f.exprs[ex.skip(f, x)]
+                    while xe["k"] == "cast":
+                        xe = f.exprs[ex.skip(f, xe["c"][0])]
+                    var = xe.get("name")
+        ok = mask is not None and (mask & 0xF) == 0xF and lab[1] == 0 and lab[2] == 0
+        if ok:
+            run.holds("RF-BITS", key, "parse_8_30 is reached under (%s & %#x) == 0: magazine 8 and an even packet number" % (var, mask),
+                      ex.loc(f, ci))
+        else:
+            run.violation("RF-BITS", key, "the switch that leads to parse_8_30() tests `%s` (case %s), not the full channel number "
+                          "pmag & 15 == 0: the low bit of the packet number is not examined, so packet 8/31 (an independent data "
+                          "line) is decoded as broadcast service data and its bytes are announced as local time / programme id"
+                          % (ex.pretty(f, cond)[:30], lab[1]), ex.loc(f, ci))
